@@ -2,6 +2,7 @@ SOURCES = ['Var.cpp', 'String.cpp']
 HARNESS = 'h_c04.cpp'
 ENV = ['vlibc.c']
 ALL = 1023
+ALL13 = 8191
 
 
 def instances(tier):
@@ -15,6 +16,9 @@ def instances(tier):
         out.append({'entry': 'h_hist', 'params': [2, t[0], t[1], t[2], ALL & ~(1 << 7)], 'bound': '2 symbolic ops (no fresh-value op) on Vars holding %s / %s / %s' % (K[t[0]], K[t[1]], K[t[2]])})
     if not q:
         out.append({'entry': 'h_hist', 'params': [3, 0, 6, 7, 0b1001001111], 'bound': '3 ops from {assign, own element, own property, element assign, clone, remove}'})
+    out.append({'entry': 'h_hist', 'params': [1, 2, 6, 8, ALL13], 'bound': '1 symbolic op of all 13 kinds on inline string / array / nested array'})
+    out.append({'entry': 'h_hist', 'params': [2, 8, 10, 0, (1 << 6) | (1 << 12) | (1 << 0)], 'bound': '2 ops from {assign, clone, nested-container mutation} on a nested array / none / int'})
+    out.append({'entry': 'h_hist', 'params': [2, 2, 6, 7, (1 << 10) | (1 << 11) | (1 << 8)], 'bound': '2 ops from {direct string assignment of length 0/3/7/8/9/20, direct scalar assignment, compare}'})
     out.append({'entry': 'h_convert', 'params': [], 'bound': 'ints in (-100000, 100000)'})
     return out
 
